@@ -367,6 +367,20 @@ def _check_text(text, signed, stats):
                 fail('verify-after-readback', 'ends-with-CR' if not representable(text) else 'does not verify')
         except Exception as ex:
             fail('verify-after-readback', '%s: %s' % (type(ex).__name__, str(ex)[:60]))
+    # a message that was READ is signed once more with another hash and written again: the Hash header names the digests of ALL its
+    # signatures (RFC 4880 section 7: a one-pass reader must know every hash before it sees the text), both signatures are there
+    if m2 is not None and text.isascii() and representable(text):
+        stats['countersign-after-readback'] += 1
+        try:
+            m2 |= K['key'].sign(m2, hash=pgpy.constants.HashAlgorithm.SHA512)
+            p3 = parse_cleartext(str(m2))
+            want = {'SHA256', 'SHA512'}
+            if set(p3['hashes']) != want:
+                fail('countersign-after-readback', 'Hash header names %s, the signatures use %s' % (sorted(set(p3['hashes'])), sorted(want)))
+            if len(list(m2.signatures)) != 2 or not K['pub'].verify(pgpy.PGPMessage.from_blob(str(m2))):
+                fail('countersign-after-readback', 'countersigned message read back does not verify')
+        except Exception as ex:
+            fail('countersign-after-readback', '%s: %s' % (type(ex).__name__, str(ex)[:60]))
     # the same armored text with CR LF line endings (every LF not already preceded by CR)
     if m2 is not None:
         stats['verify-after-crlf-transit'] += 1
